@@ -1219,6 +1219,37 @@ class Slicer:
         f = copy.deepcopy(f)
         helpers = {n for n in self.funcs if n not in self.NOT_HELPERS and n != f.name}
         hoisted = {}
+        funcs = self.funcs
+        outer = self
+
+        class Calls(ast.NodeTransformer):
+            """keyword arguments of a module-level function = the positional binding; a helper whose body is one
+            `return <expression>` = that expression with the parameters substituted"""
+            def visit_Call(self, node):
+                self.generic_visit(node)
+                if isinstance(node.func, ast.Name) and node.func.id in funcs:
+                    g = funcs[node.func.id]
+                    ps = [a.arg for a in g.args.args]
+                    if node.keywords:
+                        if g.args.vararg or g.args.kwarg or g.args.kwonlyargs or any(k.arg is None for k in node.keywords):
+                            fail(f.name, node, 'keyword call outside the subset')
+                        bound = dict(zip(ps, node.args))
+                        for k in node.keywords:
+                            if k.arg not in ps or k.arg in bound:
+                                fail(f.name, node, 'keyword call outside the subset')
+                            bound[k.arg] = k.value
+                        if set(bound) != set(ps):
+                            fail(f.name, node, 'keyword call relies on a default')
+                        node = ast.Call(func=node.func, args=[bound[p] for p in ps], keywords=[])
+                    if node.func.id in helpers:
+                        body = [x for x in g.body if not isinstance(x, ast.Pass)
+                                and not (isinstance(x, ast.Expr) and isinstance(x.value, ast.Constant))]
+                        if len(body) == 1 and isinstance(body[0], ast.Return) and body[0].value is not None \
+                                and len(ps) == len(node.args) and not g.args.defaults:
+                            e = _Subst(dict(zip(ps, node.args))).visit(copy.deepcopy(body[0].value))
+                            return self.visit(e)
+                return node
+        f = ast.fix_missing_locations(Calls().visit(f))
 
         def simple_return(h):
             top = [x for x in h.body if not isinstance(x, ast.FunctionDef)]
